@@ -171,7 +171,7 @@ fn populate(src: &MemSource) {
         t.put(&id, "n0", world::recipe_bytes(&[ROp::F { id: id.clone(), ext: "la".into() }, ROp::O { kind: Kind::LeafS, id: id.clone(), tolerant: true }]), Variant::Buffer);
         t.put(&id, "ns", world::recipe_bytes(&[ROp::F { id: id.clone(), ext: "la".into() }, ROp::O { kind: Kind::Leaf, id: id.clone(), tolerant: true }]), Variant::Buffer);
     }
-    t.put(world::SENTINEL, "la", b"ok:0".to_vec(), Variant::Buffer);
+    t.put(world::SENTINEL, "la", b"ok:S0".to_vec(), Variant::Buffer);
 }
 
 struct Model {
@@ -267,7 +267,7 @@ macro_rules! drive {
                             Ok(h) => h.last_reload_id(),
                             Err(_) => continue,
                         };
-                        $src.tree().put(world::SENTINEL, "la", format!("ok:{sentinel_version}").into_bytes(), Variant::Buffer);
+                        $src.tree().put(world::SENTINEL, "la", format!("ok:S{sentinel_version}").into_bytes(), Variant::Buffer);
                         $src.send(&OwnedEntry::File(world::SENTINEL.to_string(), "la".to_string()));
                         loop {
                             hot_reload_of(&$cache);
